@@ -3,6 +3,23 @@
 
 package utils
 
+import (
+	"bufio"
+	"io"
+	"math"
+)
+
+// NewLineScanner returns a scanner that splits its input into lines.
+// Unlike a default bufio.Scanner it has no upper limit on the length of a
+// line: with the default limit (64 KiB) a longer line ends the scan and, since
+// the error was never looked at, everything after it was silently dropped.
+func NewLineScanner(reader io.Reader) *bufio.Scanner {
+	scanner := bufio.NewScanner(reader)
+	scanner.Buffer(nil, math.MaxInt)
+	scanner.Split(bufio.ScanLines)
+	return scanner
+}
+
 func IsEscaped(input string, position int) bool {
 	escapeCounter := 0
 	for backtrackIndex := position - 1; backtrackIndex >= 0; backtrackIndex-- {
